@@ -21,7 +21,7 @@ T = lambda a: ["try", a]
 S = lambda a: ["stop", a]
 LIB = ["inplace_stop_token.cpp", "async_stack.cpp", "exception.cpp", "async_mutex_v1.cpp", "async_mutex_v2.cpp",
        "atomic_intrusive_list.cpp"]
-SCHED_NAME = {0: "plain", 1: "unifex::inline_scheduler"}
+SCHED_NAME = {0: "plain", 1: "unifex::inline_scheduler", 2: "recording"}
 
 
 def gen_scenarios(tier):
@@ -65,6 +65,27 @@ def gen_scenarios(tier):
         add(n, 2, 1, p)
     inline = list(out)
     return main, inline
+
+
+def gen_c11_scenarios(tier):
+    """Cancellable mutex with one recording manual scheduler per harness thread (= context)."""
+    progs = [
+        ("A", [L(1), U(1)], [L(2), U(2)], [L(3), U(3)]),
+        ("B", [T(1), U(1)], [L(2), U(2)], [L(3), U(3)]),
+        ("G", [L(1), U(1)], [L(2), U(2)], [S(2)]),                    # foreign stop (premise of the clause fails for 2)
+        ("I", [T(1), U(1)], [L(2), U(2)], [L(3), S(3), U(3)]),        # stop issued on the waiter's own context
+        ("J", [L(1), U(1)], [L(2), U(2)], [S(2), L(3), U(3)]),
+        ("Lq", [L(1), U(1)], [S(2), L(2), U(2)], [L(3), U(3)]),       # own stop before start
+        ("Q", [T(1), U(1)], [L(2), S(2), U(2)], [L(3), S(3), U(3)]),  # two own stops racing with the foreign unlock
+    ]
+    if tier == "thorough":
+        progs += [
+            ("C", [L(1), U(1), L(4), U(4)], [L(2), U(2)], [T(3), U(3)]),
+            ("F", [L(1), U(1), L(4), U(4)], [L(2), U(2), L(5), U(5)], []),
+            ("K", [T(1), S(2), U(1)], [L(2), U(2)], [L(3), U(3)]),
+            ("R", [L(1), S(1), U(1), L(4), U(4)], [L(2), U(2)], [L(3), S(3), U(3)]),
+        ]
+    return [dict(id=i + 1, name=n, ver=2, sched=2, prog=[list(x) for x in p]) for i, (n, *p) in enumerate(progs)]
 
 
 def analyse(events, deadlock):
@@ -117,7 +138,7 @@ def execute_runs(ctx, runs, prop):
         return vlib.validate_trace(ctx, "sync", "MutexMon", cp, env=menv)["accepted"]
 
     def found_so_far():
-        n = sum(1 for v in rep.violations if v.get("sched") == "plain")
+        n = sum(1 for v in rep.violations if v.get("sched") in ("plain", "recording"))
         for _, _, _, fu in pending:
             if fu.done() and not fu.exception():
                 n += len(fu.result()[2])
@@ -230,7 +251,8 @@ def execute_runs(ctx, runs, prop):
     rep.traces, rep.events = base_traces + tot_n, base_events + tot_ev      # (the pool's increments may have raced)
     if acc is True:
         raise vlib.Broken("monitor self-check failed: MutexMon accepted a recorded trace with one Unlock event removed")
-    rep.note("monitor self-check: a recorded trace with one Unlock removed is %s" % ("rejected" if acc is False else "not available"))
+    if prop == "C15":
+        rep.note("monitor self-check: a recorded trace with one Unlock removed is %s" % ("rejected" if acc is False else "not available"))
 
 
 def run_c15(ctx):
@@ -350,3 +372,43 @@ def run_c15(ctx):
     rep.rule("executions = guided replays of TLC behaviours (MutexV1 at full granularity, MutexV2 with list operations atomic) + "
              "DFS(preemption-bounded, two granularities) + seeded random schedules of the real v1/v2 async_mutex; "
              "distinct_nontrivial = distinct recorded event sequences with more than 3 events")
+
+
+def run_c11(ctx):
+    """C11 clause for the cancellable mutex (lock_raw_sender::is_always_scheduler_affine): completions are delivered on
+    the context of the receiver's scheduler even when the unlock that grants the lock runs on a foreign thread."""
+    import hashlib
+    from concurrent.futures import ThreadPoolExecutor
+    rep = ctx.rep
+    quick = ctx.quick
+    rep.assume("mutex engine, C11: every harness thread is a context with its own recording manual scheduler (drained only by "
+               "that thread while it waits for its attempt); the clause is checked for attempts started on their context "
+               "whose stop requests (if any) were issued there; <= 3 contexts, <= 5 attempts; sequentially consistent interleavings")
+    scns = gen_c11_scenarios(ctx.tier)
+    sp = os.path.join(ctx.work, "scenarios_c11.json")
+    json.dump(scns, open(sp, "w"))
+    hh = hashlib.sha1(open(os.path.join(os.path.dirname(os.path.abspath(__file__)), "msched.hpp"), "rb").read()).hexdigest()[:12]
+    bargs = dict(name="mutex_driver", srcs=["engines/mutex/driver.cpp"], lib=LIB, defs=["MSCHED_HDR_HASH=0x" + hh])
+    with ThreadPoolExecutor(max_workers=2) as pool:
+        fx = pool.submit(lambda: vlib.build(ctx, san="undefined", **bargs))
+        # exhaustive: MutexV2 with SchedKind = rec; AffineCompletion + the mutex invariants
+        vlib.model_check(ctx, "sync", "MutexV2MC", cfg="MutexV2C11.cfg", env={"SCENARIOS": sp, "EDGES": ""}, workers=3, timeout=3000)
+        exe = fx.result()
+    rep.exhaustive = True
+    byid = {s["id"]: s for s in scns}
+    runs = [
+        ("c11-dfs-l1", exe, sp, ["--mode", "dfs", "--level", 1, "--bound", 2 if quick else 3, "--cap", 200 if quick else 2000], len(scns), byid),
+        ("c11-dfs-l2", exe, sp, ["--mode", "dfs", "--level", 2, "--bound", 2, "--cap", 100 if quick else 1000], len(scns), byid),
+        ("c11-random-l2", exe, sp, ["--mode", "random", "--level", 2, "--seed", ctx.seed, "--cap", 150 if quick else 1500], len(scns), byid),
+        ("c11-random-l1", exe, sp, ["--mode", "random", "--level", 1, "--seed", ctx.seed + 1000, "--cap", 100 if quick else 1000], len(scns), byid),
+    ]
+    execute_runs(ctx, runs, "C11")
+    rep.rule("mutex/C11: executions = DFS(preemption-bounded, two granularities) + seeded random schedules of the real "
+             "v2::async_mutex whose receivers report a per-thread recording scheduler; the monitor compares the thread that "
+             "delivers Acquired/Done with the thread that started the attempt")
+
+
+def run(ctx):
+    if ctx.prop == "C11":
+        return run_c11(ctx)
+    return run_c15(ctx)
